@@ -1,0 +1,2667 @@
+//! A native, in-memory DOM backend, compiled only with `--cfg leptos_verif`.
+//!
+//! With that cfg, [`Rndr`](crate::renderer::Rndr) and every type in
+//! [`renderer::types`](crate::renderer::types) point at this module instead of `web_sys`, so the
+//! real `Render::build/rebuild`, `Mountable::mount/unmount`, `RenderHtml::hydrate`, the keyed
+//! diff and all reactive views run against an arena of plain Rust nodes that can be inspected
+//! from a native (non-wasm) test harness.
+//!
+//! Properties of the model:
+//! * one thread-local arena; node ids are stable integers handed out in creation order;
+//! * node kinds: element (tag, namespace), text, comment, document fragment;
+//! * attributes are kept in insertion order; `classList` and `style` are *views* onto the
+//!   `class` / `style` attributes (they re-parse and re-serialise the attribute, as a browser
+//!   does), so serialisation shows them;
+//! * `insert_before` detaches the child from its previous parent first, `None` appends,
+//!   inserting a fragment moves its children;
+//! * every node has a mutation counter; the arena counts created nodes; an optional op log
+//!   records every mutation in order;
+//! * DOM exceptions (`NotFoundError`, `HierarchyRequestError`, `InvalidCharacterError`,
+//!   `SyntaxError`) are returned as [`DomError`] by the node methods and recorded in an error
+//!   log by the [`Dom`] renderer functions (mirroring `or_debug!`, which only warns);
+//! * event listeners are stored (not attached to anything) and can be fired with
+//!   [`dispatch_event`], which passes `JsValue::UNDEFINED` as the event object;
+//! * JS properties are stored per element as [`JsValue`] (a native stand-in enum).
+//!
+//! The arena is single-threaded: handles must be used on the thread that created them, and
+//! [`reset`] invalidates every handle created before it (using one panics).
+
+#![allow(missing_docs)]
+
+use super::{CastFrom, RemoveEventHandler};
+use crate::view::{Mountable, ToTemplate};
+use std::{
+    any::TypeId,
+    borrow::Cow,
+    cell::{Cell, RefCell},
+    fmt::{self, Debug, Display, Write as _},
+    ops::Deref,
+    rc::Rc,
+};
+
+/// XHTML namespace (the namespace of elements created without an explicit namespace).
+pub const HTML_NS: &str = "http://www.w3.org/1999/xhtml";
+/// SVG namespace.
+pub const SVG_NS: &str = "http://www.w3.org/2000/svg";
+/// MathML namespace.
+pub const MATHML_NS: &str = "http://www.w3.org/1998/Math/MathML";
+
+const VOID_ELEMENTS: &[&str] = &[
+    "area", "base", "br", "col", "embed", "hr", "img", "input", "link", "meta",
+    "param", "source", "track", "wbr",
+];
+
+// ---------------------------------------------------------------------------------------------
+// arena
+// ---------------------------------------------------------------------------------------------
+
+/// The kind of a node in the native DOM.
+#[derive(Debug, Clone, PartialEq, Eq, Hash)]
+pub enum NodeKind {
+    /// An element. `namespace` is `None` for HTML elements.
+    Element {
+        /// Tag name exactly as given to `create_element` (lower-case for parsed HTML).
+        tag: String,
+        /// Namespace URI, `None` for HTML.
+        namespace: Option<String>,
+    },
+    /// A text node.
+    Text,
+    /// A comment node (tachys' placeholder/marker node).
+    Comment,
+    /// A document fragment (`<template>` content, parser output).
+    Fragment,
+}
+
+struct NodeData {
+    kind: NodeKind,
+    parent: Option<u32>,
+    children: Vec<u32>,
+    attrs: Vec<(String, String)>,
+    props: Vec<(String, JsValue)>,
+    data: String,
+    /// content fragment of an HTML `<template>` element
+    content: Option<u32>,
+    mutations: u64,
+}
+
+type Callback = Rc<RefCell<Box<dyn FnMut(Event)>>>;
+
+struct Listener {
+    id: usize,
+    node: u32,
+    name: String,
+    capture: bool,
+    delegated: bool,
+    cb: Callback,
+}
+
+#[derive(Default)]
+struct Arena {
+    nodes: Vec<NodeData>,
+    errors: Vec<String>,
+    log: Option<Vec<Op>>,
+    listeners: Vec<Listener>,
+    next_listener: usize,
+    templates: Vec<(TypeId, u32)>,
+    document: Option<u32>,
+    node_ref_loads: Vec<u32>,
+}
+
+thread_local! {
+    static ARENA: RefCell<Arena> = RefCell::new(Arena::default());
+    static EPOCH: Cell<u32> = const { Cell::new(0) };
+    static HTML_PARSER: Cell<Option<fn(&Node, &str)>> = const { Cell::new(None) };
+}
+
+fn with<R>(f: impl FnOnce(&mut Arena) -> R) -> R {
+    ARENA.with(|a| f(&mut a.borrow_mut()))
+}
+
+/// One mutation of the native DOM, as recorded by the op log (see [`set_logging`]).
+#[derive(Debug, Clone, PartialEq, Eq)]
+pub enum Op {
+    CreateElement {
+        id: usize,
+        tag: String,
+    },
+    CreateText {
+        id: usize,
+        data: String,
+    },
+    CreateComment {
+        id: usize,
+        data: String,
+    },
+    CreateFragment {
+        id: usize,
+    },
+    /// `parent.insertBefore(child, anchor)`; `from` is the parent the child was detached from.
+    Insert {
+        parent: usize,
+        child: usize,
+        anchor: Option<usize>,
+        from: Option<usize>,
+    },
+    /// `child` was removed from `parent` (via `remove`, `remove_child` or `clear_children`).
+    Remove {
+        parent: usize,
+        child: usize,
+    },
+    SetData {
+        id: usize,
+        data: String,
+    },
+    SetAttribute {
+        id: usize,
+        name: String,
+        value: String,
+    },
+    RemoveAttribute {
+        id: usize,
+        name: String,
+    },
+    SetProperty {
+        id: usize,
+        name: String,
+        value: JsValue,
+    },
+    AddListener {
+        id: usize,
+        name: String,
+    },
+    RemoveListener {
+        id: usize,
+        name: String,
+    },
+}
+
+impl Display for Op {
+    fn fmt(&self, f: &mut fmt::Formatter<'_>) -> fmt::Result {
+        match self {
+            Op::CreateElement { id, tag } => write!(f, "create #{id} <{tag}>"),
+            Op::CreateText { id, data } => write!(f, "text #{id} {data:?}"),
+            Op::CreateComment { id, data } => {
+                write!(f, "comment #{id} {data:?}")
+            }
+            Op::CreateFragment { id } => write!(f, "fragment #{id}"),
+            Op::Insert {
+                parent,
+                child,
+                anchor,
+                from,
+            } => {
+                write!(f, "insert #{child} into #{parent}")?;
+                match anchor {
+                    Some(a) => write!(f, " before #{a}")?,
+                    None => write!(f, " at end")?,
+                }
+                if let Some(from) = from {
+                    write!(f, " (from #{from})")?;
+                }
+                Ok(())
+            }
+            Op::Remove { parent, child } => {
+                write!(f, "remove #{child} from #{parent}")
+            }
+            Op::SetData { id, data } => write!(f, "data #{id} {data:?}"),
+            Op::SetAttribute { id, name, value } => {
+                write!(f, "attr #{id} {name}={value:?}")
+            }
+            Op::RemoveAttribute { id, name } => {
+                write!(f, "rmattr #{id} {name}")
+            }
+            Op::SetProperty { id, name, value } => {
+                write!(f, "prop #{id} {name}={value:?}")
+            }
+            Op::AddListener { id, name } => write!(f, "listen #{id} {name}"),
+            Op::RemoveListener { id, name } => {
+                write!(f, "unlisten #{id} {name}")
+            }
+        }
+    }
+}
+
+/// A DOM exception, as a browser would throw it.
+#[derive(Debug, Clone, PartialEq, Eq)]
+pub struct DomError {
+    /// `NotFoundError`, `HierarchyRequestError`, `InvalidCharacterError`, `SyntaxError`, …
+    pub name: &'static str,
+    /// Human-readable detail.
+    pub message: String,
+}
+
+impl Display for DomError {
+    fn fmt(&self, f: &mut fmt::Formatter<'_>) -> fmt::Result {
+        write!(f, "{}: {}", self.name, self.message)
+    }
+}
+
+impl std::error::Error for DomError {}
+
+fn err<T>(
+    name: &'static str,
+    message: impl Into<String>,
+) -> Result<T, DomError> {
+    Err(DomError {
+        name,
+        message: message.into(),
+    })
+}
+
+impl Arena {
+    fn new_node(&mut self, kind: NodeKind, data: &str) -> u32 {
+        let id = self.nodes.len() as u32;
+        let op = match &kind {
+            NodeKind::Element { tag, .. } => Op::CreateElement {
+                id: id as usize,
+                tag: tag.clone(),
+            },
+            NodeKind::Text => Op::CreateText {
+                id: id as usize,
+                data: data.to_string(),
+            },
+            NodeKind::Comment => Op::CreateComment {
+                id: id as usize,
+                data: data.to_string(),
+            },
+            NodeKind::Fragment => Op::CreateFragment { id: id as usize },
+        };
+        self.nodes.push(NodeData {
+            kind,
+            parent: None,
+            children: Vec::new(),
+            attrs: Vec::new(),
+            props: Vec::new(),
+            data: data.to_string(),
+            content: None,
+            mutations: 0,
+        });
+        self.record(op);
+        id
+    }
+
+    fn record(&mut self, op: Op) {
+        if let Some(log) = &mut self.log {
+            log.push(op);
+        }
+    }
+
+    fn n(&self, id: u32) -> &NodeData {
+        &self.nodes[id as usize]
+    }
+
+    fn m(&mut self, id: u32) -> &mut NodeData {
+        &mut self.nodes[id as usize]
+    }
+
+    fn is_element(&self, id: u32) -> bool {
+        matches!(self.n(id).kind, NodeKind::Element { .. })
+    }
+
+    fn is_html_element(&self, id: u32) -> bool {
+        matches!(
+            &self.n(id).kind,
+            NodeKind::Element {
+                namespace: None,
+                ..
+            }
+        )
+    }
+
+    fn is_ancestor_or_self(&self, maybe_ancestor: u32, of: u32) -> bool {
+        let mut cur = Some(of);
+        while let Some(c) = cur {
+            if c == maybe_ancestor {
+                return true;
+            }
+            cur = self.n(c).parent;
+        }
+        false
+    }
+
+    /// Removes `child` from its parent (if any). Returns the old parent.
+    fn detach(&mut self, child: u32, log: bool) -> Option<u32> {
+        let parent = self.n(child).parent?;
+        let p = self.m(parent);
+        p.children.retain(|c| *c != child);
+        p.mutations += 1;
+        self.m(child).parent = None;
+        if log {
+            self.record(Op::Remove {
+                parent: parent as usize,
+                child: child as usize,
+            });
+        }
+        Some(parent)
+    }
+
+    fn insert_before(
+        &mut self,
+        parent: u32,
+        child: u32,
+        anchor: Option<u32>,
+    ) -> Result<(), DomError> {
+        match self.n(parent).kind {
+            NodeKind::Element { .. } | NodeKind::Fragment => {}
+            _ => {
+                return err(
+                    "HierarchyRequestError",
+                    format!("#{parent} cannot have children"),
+                )
+            }
+        }
+        if self.is_ancestor_or_self(child, parent) {
+            return err(
+                "HierarchyRequestError",
+                format!("the new child #{child} contains the parent #{parent}"),
+            );
+        }
+        if let Some(anchor) = anchor {
+            if self.n(anchor).parent != Some(parent) {
+                return err(
+                    "NotFoundError",
+                    format!(
+                        "the node #{anchor} before which the new node is to \
+                         be inserted is not a child of #{parent}"
+                    ),
+                );
+            }
+        }
+        if self.n(child).kind == NodeKind::Fragment {
+            // inserting a fragment moves its children
+            let kids = self.n(child).children.clone();
+            for kid in kids {
+                self.insert_before(parent, kid, anchor)?;
+            }
+            return Ok(());
+        }
+        // inserting a node before itself: the reference becomes its next sibling
+        let anchor = if anchor == Some(child) {
+            let sibs = &self.n(parent).children;
+            let pos = sibs.iter().position(|c| *c == child).unwrap();
+            sibs.get(pos + 1).copied()
+        } else {
+            anchor
+        };
+        let from = self.detach(child, false);
+        let p = self.m(parent);
+        let pos = match anchor {
+            Some(a) => p.children.iter().position(|c| *c == a).unwrap(),
+            None => p.children.len(),
+        };
+        p.children.insert(pos, child);
+        p.mutations += 1;
+        self.m(child).parent = Some(parent);
+        self.record(Op::Insert {
+            parent: parent as usize,
+            child: child as usize,
+            anchor: anchor.map(|a| a as usize),
+            from: from.map(|a| a as usize),
+        });
+        Ok(())
+    }
+
+    fn remove_all_children(&mut self, parent: u32) {
+        let kids = std::mem::take(&mut self.m(parent).children);
+        self.m(parent).mutations += 1;
+        for kid in kids {
+            self.m(kid).parent = None;
+            self.record(Op::Remove {
+                parent: parent as usize,
+                child: kid as usize,
+            });
+        }
+    }
+
+    fn set_data(&mut self, id: u32, data: &str) {
+        let n = self.m(id);
+        n.data = data.to_string();
+        n.mutations += 1;
+        self.record(Op::SetData {
+            id: id as usize,
+            data: data.to_string(),
+        });
+    }
+
+    fn attr_name(&self, id: u32, name: &str) -> String {
+        if self.is_html_element(id) {
+            name.to_ascii_lowercase()
+        } else {
+            name.to_string()
+        }
+    }
+
+    fn get_attr(&self, id: u32, name: &str) -> Option<&str> {
+        let name = self.attr_name(id, name);
+        self.n(id)
+            .attrs
+            .iter()
+            .find(|(k, _)| *k == name)
+            .map(|(_, v)| v.as_str())
+    }
+
+    fn set_attr(
+        &mut self,
+        id: u32,
+        name: &str,
+        value: &str,
+    ) -> Result<(), DomError> {
+        if !self.is_element(id) {
+            return err(
+                "TypeError",
+                format!("setAttribute on non-element #{id}"),
+            );
+        }
+        if !valid_attr_name(name) {
+            return err(
+                "InvalidCharacterError",
+                format!("{name:?} is not a valid attribute name"),
+            );
+        }
+        let name = self.attr_name(id, name);
+        let n = self.m(id);
+        match n.attrs.iter_mut().find(|(k, _)| *k == name) {
+            Some((_, v)) => *v = value.to_string(),
+            None => n.attrs.push((name.clone(), value.to_string())),
+        }
+        n.mutations += 1;
+        self.record(Op::SetAttribute {
+            id: id as usize,
+            name,
+            value: value.to_string(),
+        });
+        Ok(())
+    }
+
+    fn remove_attr(&mut self, id: u32, name: &str) {
+        if !self.is_element(id) {
+            return;
+        }
+        let name = self.attr_name(id, name);
+        let n = self.m(id);
+        let before = n.attrs.len();
+        n.attrs.retain(|(k, _)| *k != name);
+        if n.attrs.len() != before {
+            n.mutations += 1;
+            self.record(Op::RemoveAttribute {
+                id: id as usize,
+                name,
+            });
+        }
+    }
+
+    fn text_content(&self, id: u32, out: &mut String) {
+        match self.n(id).kind {
+            NodeKind::Text => out.push_str(&self.n(id).data),
+            NodeKind::Comment => {}
+            _ => {
+                for c in &self.n(id).children {
+                    self.text_content(*c, out);
+                }
+            }
+        }
+    }
+
+    fn clone_node(&mut self, id: u32, deep: bool) -> u32 {
+        let (kind, data, attrs, content) = {
+            let n = self.n(id);
+            (n.kind.clone(), n.data.clone(), n.attrs.clone(), n.content)
+        };
+        let new = self.new_node(kind, &data);
+        self.m(new).attrs = attrs;
+        if let Some(content) = content {
+            // template contents are always cloned along with the template
+            let c = self.clone_node(content, deep);
+            self.m(new).content = Some(c);
+        }
+        if deep {
+            let kids = self.n(id).children.clone();
+            for kid in kids {
+                let k = self.clone_node(kid, true);
+                self.m(new).children.push(k);
+                self.m(k).parent = Some(new);
+            }
+        }
+        new
+    }
+
+    /// The node that receives the children of `id` when parsing HTML into it / serialising it:
+    /// the content fragment for `<template>`, the node itself otherwise.
+    fn content_target(&mut self, id: u32) -> u32 {
+        let is_template = matches!(
+            &self.n(id).kind,
+            NodeKind::Element { tag, namespace: None } if tag.eq_ignore_ascii_case("template")
+        );
+        if is_template {
+            if let Some(c) = self.n(id).content {
+                c
+            } else {
+                let c = self.new_node(NodeKind::Fragment, "");
+                self.m(id).content = Some(c);
+                c
+            }
+        } else {
+            id
+        }
+    }
+}
+
+fn valid_attr_name(name: &str) -> bool {
+    let mut chars = name.chars();
+    match chars.next() {
+        Some(c)
+            if c.is_ascii_alphabetic()
+                || c == '_'
+                || c == ':'
+                || !c.is_ascii() => {}
+        _ => return false,
+    }
+    chars.all(|c| {
+        c.is_ascii_alphanumeric()
+            || matches!(c, '-' | '.' | '_' | ':')
+            || !c.is_ascii()
+    })
+}
+
+// ---------------------------------------------------------------------------------------------
+// handles
+// ---------------------------------------------------------------------------------------------
+
+/// A handle to a node of the native DOM (any kind). Stands in for `web_sys::Node`.
+#[derive(Clone, PartialEq, Eq, Hash, PartialOrd, Ord)]
+pub struct Node {
+    id: u32,
+    epoch: u32,
+}
+
+impl Node {
+    fn from_id(id: u32) -> Node {
+        Node {
+            id,
+            epoch: EPOCH.with(Cell::get),
+        }
+    }
+
+    #[track_caller]
+    fn ix(&self) -> u32 {
+        if self.epoch != EPOCH.with(Cell::get) {
+            panic!("native_dom: stale handle #{} used after reset()", self.id);
+        }
+        self.id
+    }
+
+    /// The stable integer id of this node (creation order, starting at 0 after [`reset`]).
+    pub fn node_id(&self) -> usize {
+        self.id as usize
+    }
+
+    /// The kind of this node.
+    pub fn kind(&self) -> NodeKind {
+        let id = self.ix();
+        with(|a| a.n(id).kind.clone())
+    }
+
+    /// DOM `nodeType`: 1 element, 3 text, 8 comment, 11 document fragment.
+    pub fn node_type(&self) -> u16 {
+        match self.kind() {
+            NodeKind::Element { .. } => 1,
+            NodeKind::Text => 3,
+            NodeKind::Comment => 8,
+            NodeKind::Fragment => 11,
+        }
+    }
+
+    /// DOM `nodeName`.
+    pub fn node_name(&self) -> String {
+        match self.kind() {
+            NodeKind::Element { tag, namespace } => {
+                if namespace.is_none() {
+                    tag.to_ascii_uppercase()
+                } else {
+                    tag
+                }
+            }
+            NodeKind::Text => "#text".into(),
+            NodeKind::Comment => "#comment".into(),
+            NodeKind::Fragment => "#document-fragment".into(),
+        }
+    }
+
+    pub fn parent_node(&self) -> Option<Node> {
+        let id = self.ix();
+        with(|a| a.n(id).parent).map(Node::from_id)
+    }
+
+    /// Like `parent_node`, but `None` unless the parent is an element.
+    pub fn parent_element(&self) -> Option<Element> {
+        self.parent_node().and_then(Element::cast_from)
+    }
+
+    pub fn first_child(&self) -> Option<Node> {
+        let id = self.ix();
+        with(|a| a.n(id).children.first().copied()).map(Node::from_id)
+    }
+
+    pub fn last_child(&self) -> Option<Node> {
+        let id = self.ix();
+        with(|a| a.n(id).children.last().copied()).map(Node::from_id)
+    }
+
+    pub fn next_sibling(&self) -> Option<Node> {
+        let id = self.ix();
+        with(|a| {
+            let parent = a.n(id).parent?;
+            let sibs = &a.n(parent).children;
+            let pos = sibs.iter().position(|c| *c == id)?;
+            sibs.get(pos + 1).copied()
+        })
+        .map(Node::from_id)
+    }
+
+    pub fn previous_sibling(&self) -> Option<Node> {
+        let id = self.ix();
+        with(|a| {
+            let parent = a.n(id).parent?;
+            let sibs = &a.n(parent).children;
+            let pos = sibs.iter().position(|c| *c == id)?;
+            pos.checked_sub(1).map(|p| sibs[p])
+        })
+        .map(Node::from_id)
+    }
+
+    /// The children of this node, in order.
+    pub fn child_nodes(&self) -> Vec<Node> {
+        let id = self.ix();
+        with(|a| a.n(id).children.clone())
+            .into_iter()
+            .map(Node::from_id)
+            .collect()
+    }
+
+    pub fn has_child_nodes(&self) -> bool {
+        let id = self.ix();
+        with(|a| !a.n(id).children.is_empty())
+    }
+
+    /// `true` if `other` is this node or a descendant of it.
+    pub fn contains(&self, other: Option<&Node>) -> bool {
+        match other {
+            None => false,
+            Some(other) => {
+                let (a_id, b_id) = (self.ix(), other.ix());
+                with(|a| a.is_ancestor_or_self(a_id, b_id))
+            }
+        }
+    }
+
+    /// DOM `textContent`: `None` is never returned for the node kinds modelled here, but the
+    /// signature matches `web_sys`. For comments and text this is their data.
+    pub fn text_content(&self) -> Option<String> {
+        let id = self.ix();
+        Some(with(|a| match a.n(id).kind {
+            NodeKind::Text | NodeKind::Comment => a.n(id).data.clone(),
+            _ => {
+                let mut s = String::new();
+                a.text_content(id, &mut s);
+                s
+            }
+        }))
+    }
+
+    /// DOM `textContent = value`: replaces all children by one text node (none if empty).
+    pub fn set_text_content(&self, value: Option<&str>) {
+        let id = self.ix();
+        let value = value.unwrap_or_default();
+        with(|a| match a.n(id).kind {
+            NodeKind::Text | NodeKind::Comment => a.set_data(id, value),
+            _ => {
+                a.remove_all_children(id);
+                if !value.is_empty() {
+                    let t = a.new_node(NodeKind::Text, value);
+                    a.insert_before(id, t, None).unwrap();
+                }
+            }
+        })
+    }
+
+    /// DOM `nodeValue`: the data of a text/comment node, `None` otherwise.
+    pub fn node_value(&self) -> Option<String> {
+        let id = self.ix();
+        with(|a| match a.n(id).kind {
+            NodeKind::Text | NodeKind::Comment => Some(a.n(id).data.clone()),
+            _ => None,
+        })
+    }
+
+    /// DOM `nodeValue = value`: sets the data of a text/comment node, no-op otherwise.
+    pub fn set_node_value(&self, value: Option<&str>) {
+        let id = self.ix();
+        with(|a| match a.n(id).kind {
+            NodeKind::Text | NodeKind::Comment => {
+                a.set_data(id, value.unwrap_or_default())
+            }
+            _ => {}
+        })
+    }
+
+    /// DOM `insertBefore`. Detaches `child` from its old parent first; `None` appends.
+    pub fn insert_before(
+        &self,
+        child: &Node,
+        anchor: Option<&Node>,
+    ) -> Result<Node, DomError> {
+        let (p, c, a) = (self.ix(), child.ix(), anchor.map(Node::ix));
+        with(|arena| arena.insert_before(p, c, a))?;
+        Ok(child.clone())
+    }
+
+    pub fn append_child(&self, child: &Node) -> Result<Node, DomError> {
+        self.insert_before(child, None)
+    }
+
+    /// DOM `removeChild`.
+    pub fn remove_child(&self, child: &Node) -> Result<Node, DomError> {
+        let (p, c) = (self.ix(), child.ix());
+        with(|a| {
+            if a.n(c).parent != Some(p) {
+                return err(
+                    "NotFoundError",
+                    format!(
+                        "the node #{c} to be removed is not a child of #{p}"
+                    ),
+                );
+            }
+            a.detach(c, true);
+            Ok(())
+        })?;
+        Ok(child.clone())
+    }
+
+    /// DOM `ChildNode.remove()`: detaches this node from its parent, if it has one.
+    pub fn remove(&self) {
+        let id = self.ix();
+        with(|a| {
+            a.detach(id, true);
+        })
+    }
+
+    /// Shallow clone (`cloneNode(false)`).
+    pub fn clone_node(&self) -> Result<Node, DomError> {
+        self.clone_node_with_deep(false)
+    }
+
+    /// `cloneNode(deep)`: copies kind, data, attributes (not properties or listeners).
+    pub fn clone_node_with_deep(&self, deep: bool) -> Result<Node, DomError> {
+        let id = self.ix();
+        Ok(Node::from_id(with(|a| a.clone_node(id, deep))))
+    }
+
+    /// Reinterprets this handle as another handle type without checking the node kind
+    /// (the analogue of `JsCast::unchecked_into`).
+    pub fn unchecked_into<T: From<Unchecked>>(self) -> T {
+        T::from(Unchecked(self))
+    }
+
+    /// Checked cast by node kind (the analogue of `JsCast::dyn_into`).
+    pub fn dyn_into<T: CastFrom<Node>>(self) -> Result<T, Node> {
+        T::cast_from(self.clone()).ok_or(self)
+    }
+}
+
+impl Debug for Node {
+    fn fmt(&self, f: &mut fmt::Formatter<'_>) -> fmt::Result {
+        if self.epoch != EPOCH.with(Cell::get) {
+            return write!(f, "#{}(stale)", self.id);
+        }
+        let desc = ARENA.with(|a| {
+            a.try_borrow().ok().map(|a| match &a.n(self.id).kind {
+                NodeKind::Element { tag, .. } => format!("<{tag}>"),
+                NodeKind::Text => format!("{:?}", a.n(self.id).data),
+                NodeKind::Comment => format!("<!--{}-->", a.n(self.id).data),
+                NodeKind::Fragment => "#fragment".to_string(),
+            })
+        });
+        match desc {
+            Some(d) => write!(f, "#{}{}", self.id, d),
+            None => write!(f, "#{}", self.id),
+        }
+    }
+}
+
+impl AsRef<Node> for Node {
+    fn as_ref(&self) -> &Node {
+        self
+    }
+}
+
+/// Wrapper used by [`Node::unchecked_into`]; not useful on its own.
+pub struct Unchecked(Node);
+
+macro_rules! handle {
+    ($(#[$meta:meta])* $name:ident) => {
+        $(#[$meta])*
+        #[derive(Clone, PartialEq, Eq, Hash, PartialOrd, Ord)]
+        pub struct $name(Node);
+
+        impl Deref for $name {
+            type Target = Node;
+
+            fn deref(&self) -> &Node {
+                &self.0
+            }
+        }
+
+        impl AsRef<Node> for $name {
+            fn as_ref(&self) -> &Node {
+                &self.0
+            }
+        }
+
+        impl AsRef<$name> for $name {
+            fn as_ref(&self) -> &$name {
+                self
+            }
+        }
+
+        impl From<$name> for Node {
+            fn from(value: $name) -> Node {
+                value.0
+            }
+        }
+
+        impl From<Unchecked> for $name {
+            fn from(value: Unchecked) -> $name {
+                $name(value.0)
+            }
+        }
+
+        impl Debug for $name {
+            fn fmt(&self, f: &mut fmt::Formatter<'_>) -> fmt::Result {
+                Debug::fmt(&self.0, f)
+            }
+        }
+    };
+}
+
+handle!(
+    /// A handle to an element. Stands in for `web_sys::Element`.
+    ///
+    /// Like its browser counterpart after an `unchecked_into`, the handle is not a proof of the
+    /// node kind: [`Dom::clone_template`] returns a fragment behind an `Element` handle.
+    Element
+);
+handle!(
+    /// A handle to a text node. Stands in for `web_sys::Text`.
+    Text
+);
+handle!(
+    /// A handle to a comment node. Stands in for `web_sys::Comment`.
+    Comment
+);
+handle!(
+    /// A handle to a document fragment. Stands in for `web_sys::DocumentFragment`.
+    DocumentFragment
+);
+
+/// The placeholder (marker) node type: a comment.
+pub type Placeholder = Comment;
+/// The event object handed to event listeners. Natively this is never a real event:
+/// [`dispatch_event`] passes `JsValue::UNDEFINED`.
+pub type Event = wasm_bindgen::JsValue;
+
+/// A handle to an HTML `<template>` element. Stands in for `web_sys::HtmlTemplateElement`.
+#[derive(Clone, PartialEq, Eq, Hash, Debug)]
+pub struct TemplateElement(Element);
+
+impl Deref for TemplateElement {
+    type Target = Element;
+
+    fn deref(&self) -> &Element {
+        &self.0
+    }
+}
+
+impl AsRef<Element> for TemplateElement {
+    fn as_ref(&self) -> &Element {
+        &self.0
+    }
+}
+
+impl AsRef<Node> for TemplateElement {
+    fn as_ref(&self) -> &Node {
+        &self.0
+    }
+}
+
+impl From<Unchecked> for TemplateElement {
+    fn from(value: Unchecked) -> Self {
+        TemplateElement(Element(value.0))
+    }
+}
+
+impl TemplateElement {
+    /// The template's content fragment.
+    pub fn content(&self) -> DocumentFragment {
+        let id = self.ix();
+        DocumentFragment(Node::from_id(with(|a| a.content_target(id))))
+    }
+}
+
+impl Element {
+    /// DOM `tagName`: upper-case for HTML elements, as given otherwise.
+    pub fn tag_name(&self) -> String {
+        self.node_name()
+    }
+
+    /// DOM `localName`: the tag as given at creation.
+    pub fn local_name(&self) -> String {
+        match self.kind() {
+            NodeKind::Element { tag, .. } => tag,
+            _ => String::new(),
+        }
+    }
+
+    /// DOM `namespaceURI` (`None` is reported as the XHTML namespace).
+    pub fn namespace_uri(&self) -> Option<String> {
+        match self.kind() {
+            NodeKind::Element { namespace, .. } => {
+                Some(namespace.unwrap_or_else(|| HTML_NS.to_string()))
+            }
+            _ => None,
+        }
+    }
+
+    pub fn get_attribute(&self, name: &str) -> Option<String> {
+        let id = self.ix();
+        with(|a| a.get_attr(id, name).map(str::to_string))
+    }
+
+    pub fn has_attribute(&self, name: &str) -> bool {
+        self.get_attribute(name).is_some()
+    }
+
+    /// Attribute names in insertion order.
+    pub fn get_attribute_names(&self) -> Vec<String> {
+        let id = self.ix();
+        with(|a| a.n(id).attrs.iter().map(|(k, _)| k.clone()).collect())
+    }
+
+    /// DOM `setAttribute`. HTML elements lower-case the name. An existing attribute keeps its
+    /// position.
+    pub fn set_attribute(
+        &self,
+        name: &str,
+        value: &str,
+    ) -> Result<(), DomError> {
+        let id = self.ix();
+        with(|a| a.set_attr(id, name, value))
+    }
+
+    pub fn remove_attribute(&self, name: &str) -> Result<(), DomError> {
+        let id = self.ix();
+        with(|a| a.remove_attr(id, name));
+        Ok(())
+    }
+
+    pub fn id(&self) -> String {
+        self.get_attribute("id").unwrap_or_default()
+    }
+
+    pub fn class_name(&self) -> String {
+        self.get_attribute("class").unwrap_or_default()
+    }
+
+    pub fn set_class_name(&self, value: &str) {
+        _ = self.set_attribute("class", value);
+    }
+
+    /// The live `classList` view of the `class` attribute.
+    pub fn class_list(&self) -> ClassList {
+        ClassList(self.clone())
+    }
+
+    /// The live `style` view of the `style` attribute.
+    pub fn style(&self) -> CssStyleDeclaration {
+        CssStyleDeclaration(self.clone())
+    }
+
+    /// The element children of this node.
+    pub fn children(&self) -> Vec<Element> {
+        self.child_nodes()
+            .into_iter()
+            .filter_map(Element::cast_from)
+            .collect()
+    }
+
+    pub fn first_element_child(&self) -> Option<Element> {
+        self.child_nodes().into_iter().find_map(Element::cast_from)
+    }
+
+    /// DOM `innerHTML` getter.
+    pub fn inner_html(&self) -> String {
+        let id = self.ix();
+        with(|a| {
+            let target = a.content_target(id);
+            let mut out = String::new();
+            for c in a.n(target).children.clone() {
+                write_node(a, c, &SerializeOptions::default(), &mut out);
+            }
+            out
+        })
+    }
+
+    /// No-op natively (there is no layout).
+    pub fn scroll_into_view(&self) {}
+
+    /// DOM `outerHTML` getter (same as [`serialize`]).
+    pub fn outer_html(&self) -> String {
+        serialize(self)
+    }
+
+    /// DOM `innerHTML = html`: removes all children, parses `html` (see [`parse_html_into`])
+    /// and appends the result. For a `<template>` the nodes go into its content fragment.
+    pub fn set_inner_html(&self, html: &str) {
+        let id = self.ix();
+        let target = with(|a| {
+            let target = a.content_target(id);
+            a.remove_all_children(target);
+            target
+        });
+        parse_html_into(&Node::from_id(target), html);
+    }
+
+    /// Reinterprets this handle as another native handle type without checking the node kind
+    /// (the analogue of `JsCast::unchecked_into`). There is no conversion to `web_sys` types.
+    pub fn unchecked_into<T: FromNativeElement>(self) -> T {
+        T::from_native_element(self)
+    }
+}
+
+/// Target types of [`Element::unchecked_into`]: the native handle types.
+pub trait FromNativeElement {
+    fn from_native_element(el: Element) -> Self;
+}
+
+impl FromNativeElement for Element {
+    fn from_native_element(el: Element) -> Self {
+        el
+    }
+}
+
+impl FromNativeElement for Node {
+    fn from_native_element(el: Element) -> Self {
+        el.0
+    }
+}
+
+impl FromNativeElement for TemplateElement {
+    fn from_native_element(el: Element) -> Self {
+        TemplateElement(el)
+    }
+}
+
+impl Text {
+    pub fn data(&self) -> String {
+        self.node_value().unwrap_or_default()
+    }
+
+    pub fn set_data(&self, data: &str) {
+        self.set_node_value(Some(data))
+    }
+}
+
+impl Comment {
+    pub fn data(&self) -> String {
+        self.node_value().unwrap_or_default()
+    }
+
+    pub fn set_data(&self, data: &str) {
+        self.set_node_value(Some(data))
+    }
+}
+
+/// The `classList` of an element: a view onto its `class` attribute.
+#[derive(Clone, PartialEq, Eq, Hash, Debug)]
+pub struct ClassList(Element);
+
+impl ClassList {
+    fn tokens(&self) -> Vec<String> {
+        let mut out: Vec<String> = Vec::new();
+        for t in self.0.class_name().split_ascii_whitespace() {
+            if !out.iter().any(|o| o == t) {
+                out.push(t.to_string());
+            }
+        }
+        out
+    }
+
+    fn validate(token: &str) -> Result<(), DomError> {
+        if token.is_empty() {
+            return err("SyntaxError", "the token provided must not be empty");
+        }
+        if token.contains(|c: char| c.is_ascii_whitespace()) {
+            return err(
+                "InvalidCharacterError",
+                format!(
+                    "the token provided ({token:?}) contains HTML space \
+                     characters, which are not valid in tokens"
+                ),
+            );
+        }
+        Ok(())
+    }
+
+    fn update(&self, tokens: Vec<String>) {
+        // DOM "update steps": no attribute and no tokens => leave the attribute absent
+        if tokens.is_empty() && !self.0.has_attribute("class") {
+            return;
+        }
+        _ = self.0.set_attribute("class", &tokens.join(" "));
+    }
+
+    /// `classList.add(token)`
+    pub fn add_1(&self, token: &str) -> Result<(), DomError> {
+        Self::validate(token)?;
+        let mut tokens = self.tokens();
+        if !tokens.iter().any(|t| t == token) {
+            tokens.push(token.to_string());
+        }
+        self.update(tokens);
+        Ok(())
+    }
+
+    /// `classList.remove(token)`
+    pub fn remove_1(&self, token: &str) -> Result<(), DomError> {
+        Self::validate(token)?;
+        let mut tokens = self.tokens();
+        tokens.retain(|t| t != token);
+        self.update(tokens);
+        Ok(())
+    }
+
+    pub fn contains(&self, token: &str) -> bool {
+        self.tokens().iter().any(|t| t == token)
+    }
+
+    pub fn length(&self) -> u32 {
+        self.tokens().len() as u32
+    }
+
+    pub fn value(&self) -> String {
+        self.0.class_name()
+    }
+}
+
+/// The inline style of an element: a view onto its `style` attribute.
+#[derive(Clone, PartialEq, Eq, Hash, Debug)]
+pub struct CssStyleDeclaration(Element);
+
+impl CssStyleDeclaration {
+    fn declarations(&self) -> Vec<(String, String)> {
+        let mut out: Vec<(String, String)> = Vec::new();
+        let text = self.0.get_attribute("style").unwrap_or_default();
+        for decl in text.split(';') {
+            let Some((name, value)) = decl.split_once(':') else {
+                continue;
+            };
+            let name = Self::normalize_name(name.trim());
+            let value = value.trim();
+            if name.is_empty() || value.is_empty() {
+                continue;
+            }
+            match out.iter_mut().find(|(k, _)| *k == name) {
+                Some((_, v)) => *v = value.to_string(),
+                None => out.push((name, value.to_string())),
+            }
+        }
+        out
+    }
+
+    fn normalize_name(name: &str) -> String {
+        if name.starts_with("--") {
+            name.to_string()
+        } else {
+            name.to_ascii_lowercase()
+        }
+    }
+
+    fn update(&self, decls: Vec<(String, String)>) {
+        let mut text = String::new();
+        for (i, (k, v)) in decls.iter().enumerate() {
+            if i > 0 {
+                text.push(' ');
+            }
+            _ = write!(text, "{k}: {v};");
+        }
+        _ = self.0.set_attribute("style", &text);
+    }
+
+    /// `style.setProperty(name, value)`; an empty value removes the property. Values are
+    /// not validated against any CSS grammar.
+    pub fn set_property(
+        &self,
+        name: &str,
+        value: &str,
+    ) -> Result<(), DomError> {
+        let value = value.trim();
+        if value.is_empty() {
+            return self.remove_property(name).map(|_| ());
+        }
+        let name = Self::normalize_name(name.trim());
+        if name.is_empty() {
+            return Ok(());
+        }
+        let mut decls = self.declarations();
+        match decls.iter_mut().find(|(k, _)| *k == name) {
+            Some((_, v)) => *v = value.to_string(),
+            None => decls.push((name, value.to_string())),
+        }
+        self.update(decls);
+        Ok(())
+    }
+
+    /// `style.removeProperty(name)`; returns the old value (empty if it was not set).
+    pub fn remove_property(&self, name: &str) -> Result<String, DomError> {
+        let name = Self::normalize_name(name.trim());
+        let mut decls = self.declarations();
+        let old = decls
+            .iter()
+            .find(|(k, _)| *k == name)
+            .map(|(_, v)| v.clone());
+        if let Some(old) = old {
+            decls.retain(|(k, _)| *k != name);
+            self.update(decls);
+            Ok(old)
+        } else {
+            Ok(String::new())
+        }
+    }
+
+    pub fn get_property_value(&self, name: &str) -> Result<String, DomError> {
+        let name = Self::normalize_name(name.trim());
+        Ok(self
+            .declarations()
+            .into_iter()
+            .find(|(k, _)| *k == name)
+            .map(|(_, v)| v)
+            .unwrap_or_default())
+    }
+
+    pub fn css_text(&self) -> String {
+        self.0.get_attribute("style").unwrap_or_default()
+    }
+}
+
+// ---------------------------------------------------------------------------------------------
+// JS property values
+// ---------------------------------------------------------------------------------------------
+
+/// Native stand-in for `wasm_bindgen::JsValue`, used for element *properties* (`prop:` and
+/// `bind:`), so that they can be stored and inspected (see [`properties`]).
+#[derive(Debug, Clone, PartialEq)]
+pub enum JsValue {
+    Undefined,
+    Null,
+    Bool(bool),
+    Number(f64),
+    /// 64/128-bit integers (JS `BigInt`), in decimal.
+    BigInt(String),
+    String(String),
+    /// A real `wasm_bindgen::JsValue` was passed; it cannot be inspected natively.
+    Opaque,
+}
+
+impl Eq for JsValue {}
+
+impl JsValue {
+    pub const NULL: JsValue = JsValue::Null;
+    pub const UNDEFINED: JsValue = JsValue::Undefined;
+    pub const TRUE: JsValue = JsValue::Bool(true);
+    pub const FALSE: JsValue = JsValue::Bool(false);
+
+    #[allow(clippy::should_implement_trait)]
+    pub fn from_str(s: &str) -> JsValue {
+        JsValue::String(s.to_string())
+    }
+
+    pub fn from_f64(n: f64) -> JsValue {
+        JsValue::Number(n)
+    }
+
+    pub fn from_bool(b: bool) -> JsValue {
+        JsValue::Bool(b)
+    }
+
+    pub fn as_string(&self) -> Option<String> {
+        match self {
+            JsValue::String(s) => Some(s.clone()),
+            _ => None,
+        }
+    }
+
+    pub fn as_f64(&self) -> Option<f64> {
+        match self {
+            JsValue::Number(n) => Some(*n),
+            _ => None,
+        }
+    }
+
+    pub fn as_bool(&self) -> Option<bool> {
+        match self {
+            JsValue::Bool(b) => Some(*b),
+            _ => None,
+        }
+    }
+
+    pub fn is_undefined(&self) -> bool {
+        matches!(self, JsValue::Undefined)
+    }
+
+    pub fn is_null(&self) -> bool {
+        matches!(self, JsValue::Null)
+    }
+}
+
+macro_rules! js_number {
+    ($($ty:ty)*) => {
+        $(impl From<$ty> for JsValue {
+            fn from(value: $ty) -> JsValue {
+                JsValue::Number(value as f64)
+            }
+        })*
+    };
+}
+macro_rules! js_bigint {
+    ($($ty:ty)*) => {
+        $(impl From<$ty> for JsValue {
+            fn from(value: $ty) -> JsValue {
+                JsValue::BigInt(value.to_string())
+            }
+        })*
+    };
+}
+// same split as wasm-bindgen: 64- and 128-bit integers become BigInt
+js_number!(i8 u8 i16 u16 i32 u32 f32 f64 isize usize);
+js_bigint!(i64 u64 i128 u128);
+
+impl From<bool> for JsValue {
+    fn from(value: bool) -> JsValue {
+        JsValue::Bool(value)
+    }
+}
+
+impl From<&str> for JsValue {
+    fn from(value: &str) -> JsValue {
+        JsValue::String(value.to_string())
+    }
+}
+
+impl From<&String> for JsValue {
+    fn from(value: &String) -> JsValue {
+        JsValue::String(value.clone())
+    }
+}
+
+impl From<String> for JsValue {
+    fn from(value: String) -> JsValue {
+        JsValue::String(value)
+    }
+}
+
+impl<T> From<Option<T>> for JsValue
+where
+    JsValue: From<T>,
+{
+    fn from(value: Option<T>) -> JsValue {
+        match value {
+            Some(v) => JsValue::from(v),
+            None => JsValue::Undefined,
+        }
+    }
+}
+
+impl From<wasm_bindgen::JsValue> for JsValue {
+    fn from(value: wasm_bindgen::JsValue) -> JsValue {
+        if value.is_undefined() {
+            JsValue::Undefined
+        } else if value.is_null() {
+            JsValue::Null
+        } else if value == wasm_bindgen::JsValue::TRUE {
+            JsValue::Bool(true)
+        } else if value == wasm_bindgen::JsValue::FALSE {
+            JsValue::Bool(false)
+        } else {
+            JsValue::Opaque
+        }
+    }
+}
+
+// ---------------------------------------------------------------------------------------------
+// the renderer
+// ---------------------------------------------------------------------------------------------
+
+/// The native counterpart of the `web_sys` renderer: same name and same associated
+/// functions as `tachys::renderer::dom::Dom`, operating on the in-memory arena.
+#[derive(Debug, Copy, Clone, PartialEq, Eq, Hash, PartialOrd, Ord)]
+pub struct Dom;
+
+fn report<T>(
+    result: Result<T, DomError>,
+    node: &Node,
+    label: &'static str,
+) -> Option<T> {
+    match result {
+        Ok(v) => Some(v),
+        Err(e) => {
+            let msg = format!("{label} on #{}: {e}", node.id);
+            with(|a| a.errors.push(msg));
+            None
+        }
+    }
+}
+
+impl Dom {
+    pub fn intern(text: &str) -> &str {
+        text
+    }
+
+    pub fn create_element(tag: &str, namespace: Option<&str>) -> Element {
+        let kind = NodeKind::Element {
+            tag: tag.to_string(),
+            namespace: namespace
+                .filter(|ns| *ns != HTML_NS)
+                .map(str::to_string),
+        };
+        Element(Node::from_id(with(|a| a.new_node(kind, ""))))
+    }
+
+    pub fn create_text_node(text: &str) -> Text {
+        Text(Node::from_id(with(|a| a.new_node(NodeKind::Text, text))))
+    }
+
+    pub fn create_comment(data: &str) -> Comment {
+        Comment(Node::from_id(with(|a| a.new_node(NodeKind::Comment, data))))
+    }
+
+    pub fn create_document_fragment() -> DocumentFragment {
+        DocumentFragment(Node::from_id(with(|a| {
+            a.new_node(NodeKind::Fragment, "")
+        })))
+    }
+
+    pub fn create_placeholder() -> Placeholder {
+        Self::create_comment("")
+    }
+
+    pub fn set_text(node: &Text, text: &str) {
+        node.set_node_value(Some(text));
+    }
+
+    pub fn set_attribute(node: &Element, name: &str, value: &str) {
+        report(node.set_attribute(name, value), node, "setAttribute");
+    }
+
+    pub fn remove_attribute(node: &Element, name: &str) {
+        report(node.remove_attribute(name), node, "removeAttribute");
+    }
+
+    pub fn insert_node(
+        parent: &Element,
+        new_child: &Node,
+        anchor: Option<&Node>,
+    ) {
+        report(
+            parent.insert_before(new_child, anchor),
+            parent,
+            "insertNode",
+        );
+    }
+
+    pub fn remove_node(parent: &Element, child: &Node) -> Option<Node> {
+        report(parent.remove_child(child), parent, "removeNode")
+    }
+
+    pub fn remove(node: &Node) {
+        node.remove();
+    }
+
+    pub fn get_parent(node: &Node) -> Option<Node> {
+        node.parent_node()
+    }
+
+    pub fn first_child(node: &Node) -> Option<Node> {
+        #[cfg(debug_assertions)]
+        {
+            let node = node.first_child();
+            // if it's a comment node that starts with hot-reload, it's a marker that should be
+            // ignored
+            if let Some(node) = node.as_ref() {
+                if node.node_type() == 8
+                    && node
+                        .text_content()
+                        .unwrap_or_default()
+                        .starts_with("hot-reload")
+                {
+                    return Self::next_sibling(node);
+                }
+            }
+
+            node
+        }
+        #[cfg(not(debug_assertions))]
+        {
+            node.first_child()
+        }
+    }
+
+    pub fn next_sibling(node: &Node) -> Option<Node> {
+        #[cfg(debug_assertions)]
+        {
+            let node = node.next_sibling();
+            // if it's a comment node that starts with hot-reload, it's a marker that should be
+            // ignored
+            if let Some(node) = node.as_ref() {
+                if node.node_type() == 8
+                    && node
+                        .text_content()
+                        .unwrap_or_default()
+                        .starts_with("hot-reload")
+                {
+                    return Self::next_sibling(node);
+                }
+            }
+
+            node
+        }
+        #[cfg(not(debug_assertions))]
+        {
+            node.next_sibling()
+        }
+    }
+
+    pub fn log_node(node: &Node) {
+        eprintln!("{}", serialize_with_ids(node));
+    }
+
+    pub fn clear_children(parent: &Element) {
+        parent.set_text_content(Some(""));
+    }
+
+    /// Mounts the new child before the marker as its sibling.
+    ///
+    /// ## Panics
+    /// The default implementation panics if `before` does not have a parent [`crate::renderer::types::Element`].
+    pub fn mount_before<M>(new_child: &mut M, before: &Node)
+    where
+        M: Mountable,
+    {
+        let parent = Element::cast_from(
+            Self::get_parent(before).expect("could not find parent element"),
+        )
+        .expect("placeholder parent should be Element");
+        new_child.mount(&parent, Some(before));
+    }
+
+    /// Tries to mount the new child before the marker as its sibling.
+    ///
+    /// Returns `false` if the child did not have a valid parent.
+    #[track_caller]
+    pub fn try_mount_before<M>(new_child: &mut M, before: &Node) -> bool
+    where
+        M: Mountable,
+    {
+        if let Some(parent) =
+            Self::get_parent(before).and_then(Element::cast_from)
+        {
+            new_child.mount(&parent, Some(before));
+            true
+        } else {
+            false
+        }
+    }
+
+    /// Stores the property on the element (see [`properties`]). Properties are not reflected
+    /// into attributes.
+    pub fn set_property(el: &Element, key: &str, value: &JsValue) {
+        let id = el.ix();
+        with(|a| {
+            let n = a.m(id);
+            match n.props.iter_mut().find(|(k, _)| k == key) {
+                Some((_, v)) => *v = value.clone(),
+                None => n.props.push((key.to_string(), value.clone())),
+            }
+            n.mutations += 1;
+            a.record(Op::SetProperty {
+                id: id as usize,
+                name: key.to_string(),
+                value: value.clone(),
+            });
+        })
+    }
+
+    fn listen(
+        el: &Element,
+        name: &str,
+        cb: Box<dyn FnMut(Event)>,
+        capture: bool,
+        delegated: bool,
+    ) -> RemoveEventHandler<Element> {
+        let node = el.ix();
+        let epoch = el.epoch;
+        let id = with(|a| {
+            let id = a.next_listener;
+            a.next_listener += 1;
+            a.listeners.push(Listener {
+                id,
+                node,
+                name: name.to_string(),
+                capture,
+                delegated,
+                cb: Rc::new(RefCell::new(cb)),
+            });
+            a.record(Op::AddListener {
+                id: node as usize,
+                name: name.to_string(),
+            });
+            id
+        });
+        RemoveEventHandler::new(move |_el: &Element| {
+            if epoch != EPOCH.with(Cell::get) {
+                return;
+            }
+            // the callback may be running right now: drop it outside of the arena borrow
+            let removed = with(|a| {
+                let pos = a.listeners.iter().position(|l| l.id == id)?;
+                let l = a.listeners.remove(pos);
+                a.record(Op::RemoveListener {
+                    id: l.node as usize,
+                    name: l.name.clone(),
+                });
+                Some(l)
+            });
+            drop(removed);
+        })
+    }
+
+    /// Stores the listener; nothing ever fires it except [`dispatch_event`].
+    pub fn add_event_listener(
+        el: &Element,
+        name: &str,
+        cb: Box<dyn FnMut(Event)>,
+    ) -> RemoveEventHandler<Element> {
+        Self::listen(el, name, cb, false, false)
+    }
+
+    pub fn add_event_listener_use_capture(
+        el: &Element,
+        name: &str,
+        cb: Box<dyn FnMut(Event)>,
+    ) -> RemoveEventHandler<Element> {
+        Self::listen(el, name, cb, true, false)
+    }
+
+    pub fn add_event_listener_delegated(
+        el: &Element,
+        name: Cow<'static, str>,
+        _delegation_key: Cow<'static, str>,
+        cb: Box<dyn FnMut(Event)>,
+    ) -> RemoveEventHandler<Element> {
+        Self::listen(el, &name, cb, false, true)
+    }
+
+    /// There are no real event objects natively, so there is no event target.
+    pub fn event_target<T>(_ev: &Event) -> T
+    where
+        T: CastFrom<Element>,
+    {
+        panic!("native_dom: events have no target (leptos_verif build)")
+    }
+
+    pub fn class_list(el: &Element) -> ClassList {
+        el.class_list()
+    }
+
+    pub fn add_class(list: &ClassList, name: &str) {
+        report(list.add_1(name), &list.0, "add()");
+    }
+
+    pub fn remove_class(list: &ClassList, name: &str) {
+        report(list.remove_1(name), &list.0, "remove()");
+    }
+
+    pub fn style(el: &Element) -> CssStyleDeclaration {
+        el.style()
+    }
+
+    pub fn set_css_property(
+        style: &CssStyleDeclaration,
+        name: &str,
+        value: &str,
+    ) {
+        report(style.set_property(name, value), &style.0, "setProperty");
+    }
+
+    pub fn remove_css_property(style: &CssStyleDeclaration, name: &str) {
+        report(style.remove_property(name), &style.0, "removeProperty");
+    }
+
+    pub fn set_inner_html(el: &Element, html: &str) {
+        el.set_inner_html(html);
+    }
+
+    pub fn get_template<V>() -> TemplateElement
+    where
+        V: ToTemplate + 'static,
+    {
+        let key = TypeId::of::<V>();
+        let cached = with(|a| {
+            a.templates.iter().find(|(k, _)| *k == key).map(|(_, v)| *v)
+        });
+        if let Some(id) = cached {
+            return TemplateElement(Element(Node::from_id(id)));
+        }
+        let tpl = Self::create_element("template", None);
+        let mut buf = String::new();
+        V::to_template(
+            &mut buf,
+            &mut String::new(),
+            &mut String::new(),
+            &mut String::new(),
+            &mut Default::default(),
+        );
+        tpl.set_inner_html(&buf);
+        with(|a| a.templates.push((key, tpl.id)));
+        TemplateElement(tpl)
+    }
+
+    /// Deep-clones the template's content. As in the browser implementation, the result is a
+    /// document fragment behind an `Element` handle.
+    pub fn clone_template(tpl: &TemplateElement) -> Element {
+        tpl.content()
+            .clone_node_with_deep(true)
+            .unwrap()
+            .unchecked_into()
+    }
+
+    pub fn create_element_from_html(html: &str) -> Element {
+        let tpl = Self::create_element("template", None);
+        tpl.set_inner_html(html);
+        let tpl = Self::clone_template(&TemplateElement(tpl));
+        tpl.first_element_child().unwrap_or(tpl)
+    }
+}
+
+macro_rules! mountable {
+    ($ty:ty, $elements:expr) => {
+        impl Mountable for $ty {
+            fn unmount(&mut self) {
+                self.remove();
+            }
+
+            fn mount(&mut self, parent: &Element, marker: Option<&Node>) {
+                Dom::insert_node(parent, self, marker);
+            }
+
+            fn insert_before_this(&self, child: &mut dyn Mountable) -> bool {
+                let parent =
+                    Dom::get_parent(self.as_ref()).and_then(Element::cast_from);
+                if let Some(parent) = parent {
+                    child.mount(&parent, Some(self));
+                    return true;
+                }
+                false
+            }
+
+            fn elements(&self) -> Vec<crate::renderer::types::Element> {
+                #[allow(clippy::redundant_closure_call)]
+                ($elements)(self)
+            }
+        }
+    };
+}
+
+mountable!(Node, |_: &Node| vec![]);
+mountable!(Text, |_: &Text| vec![]);
+mountable!(Comment, |_: &Comment| vec![]);
+mountable!(Element, |el: &Element| vec![el.clone()]);
+
+impl CastFrom<Node> for Text {
+    fn cast_from(node: Node) -> Option<Text> {
+        (node.kind() == NodeKind::Text).then_some(Text(node))
+    }
+}
+
+impl CastFrom<Node> for Comment {
+    fn cast_from(node: Node) -> Option<Comment> {
+        (node.kind() == NodeKind::Comment).then_some(Comment(node))
+    }
+}
+
+impl CastFrom<Node> for Element {
+    fn cast_from(node: Node) -> Option<Element> {
+        matches!(node.kind(), NodeKind::Element { .. }).then_some(Element(node))
+    }
+}
+
+impl CastFrom<Node> for DocumentFragment {
+    fn cast_from(node: Node) -> Option<DocumentFragment> {
+        (node.kind() == NodeKind::Fragment).then_some(DocumentFragment(node))
+    }
+}
+
+impl CastFrom<Node> for Node {
+    fn cast_from(node: Node) -> Option<Node> {
+        Some(node)
+    }
+}
+
+impl<T> CastFrom<wasm_bindgen::JsValue> for T
+where
+    T: wasm_bindgen::JsCast,
+{
+    fn cast_from(source: wasm_bindgen::JsValue) -> Option<Self> {
+        wasm_bindgen::JsCast::dyn_into::<T>(source).ok()
+    }
+}
+
+/// Mirrors the browser build's blanket impl so that `event::Targeted<_, web_sys::…>` still
+/// type-checks. There is no native event target, so this is never reached by [`Dom`].
+impl<T> CastFrom<Element> for T
+where
+    T: wasm_bindgen::JsCast,
+{
+    fn cast_from(_source: Element) -> Option<Self> {
+        None
+    }
+}
+
+// ---------------------------------------------------------------------------------------------
+// inspection API
+// ---------------------------------------------------------------------------------------------
+
+/// Discards the arena and starts a fresh one: ids restart at 0, counters, logs, listeners and
+/// cached templates are dropped. Every handle created before is stale (using one panics).
+pub fn reset() {
+    let old = ARENA.with(|a| a.replace(Arena::default()));
+    EPOCH.with(|e| e.set(e.get().wrapping_add(1)));
+    // listeners may own arbitrary user state: drop them after the new arena is in place
+    drop(old);
+}
+
+/// Creates a parentless element to serve as the root of a tree (e.g. a stand-in for `<body>`).
+pub fn create_root(tag: &str) -> Element {
+    Dom::create_element(tag, None)
+}
+
+/// The native "document": `<html><head></head><body></body></html>`, created on first use
+/// (taking the next three node ids at that moment) and kept until [`reset`]. Stands in for
+/// `web_sys::Document` as the return type of `tachys::dom::document()`, which is what
+/// `leptos_meta` uses to reach `<html>`, `<head>`, `<body>` and the document title.
+#[derive(Debug, Clone, Copy, PartialEq, Eq, Hash)]
+pub struct Document;
+
+/// The native document (see [`Document`]).
+pub fn document() -> Document {
+    Document
+}
+
+/// The `<body>` of the native [`Document`]. This is what `tachys::dom::body()`,
+/// `leptos::mount::mount_to_body` and `hydrate_body` use.
+pub fn body() -> Element {
+    Document.body().expect("native document has no <body>")
+}
+
+impl Document {
+    fn root(&self) -> Element {
+        if let Some(id) = with(|a| a.document) {
+            return Element(Node::from_id(id));
+        }
+        let html = Dom::create_element("html", None);
+        let head = Dom::create_element("head", None);
+        let body = Dom::create_element("body", None);
+        html.append_child(&head).unwrap();
+        html.append_child(&body).unwrap();
+        with(|a| a.document = Some(html.0.id));
+        html
+    }
+
+    fn child(&self, tag: &str) -> Option<Element> {
+        self.root().children().into_iter().find(|c| {
+            c.namespace_uri().as_deref() == Some(HTML_NS)
+                && c.local_name() == tag
+        })
+    }
+
+    /// The `<html>` element.
+    pub fn document_element(&self) -> Option<Element> {
+        Some(self.root())
+    }
+
+    /// The first `<head>` child of `<html>`, if it is still there.
+    pub fn head(&self) -> Option<Element> {
+        self.child("head")
+    }
+
+    /// The first `<body>` child of `<html>`, if it is still there.
+    pub fn body(&self) -> Option<Element> {
+        self.child("body")
+    }
+
+    pub fn create_element(&self, tag: &str) -> Result<Element, DomError> {
+        Ok(Dom::create_element(tag, None))
+    }
+
+    pub fn create_element_ns(
+        &self,
+        namespace: Option<&str>,
+        tag: &str,
+    ) -> Result<Element, DomError> {
+        Ok(Dom::create_element(tag, namespace))
+    }
+
+    pub fn create_text_node(&self, data: &str) -> Text {
+        Dom::create_text_node(data)
+    }
+
+    pub fn create_comment(&self, data: &str) -> Comment {
+        Dom::create_comment(data)
+    }
+
+    fn find(&self, pred: &dyn Fn(&Element) -> bool) -> Option<Element> {
+        fn walk(
+            el: Element,
+            pred: &dyn Fn(&Element) -> bool,
+        ) -> Option<Element> {
+            if pred(&el) {
+                return Some(el);
+            }
+            el.children().into_iter().find_map(|c| walk(c, pred))
+        }
+        walk(self.root(), pred)
+    }
+
+    /// The first element of the document (in tree order) with the given `id` attribute.
+    pub fn get_element_by_id(&self, id: &str) -> Option<Element> {
+        self.find(&|el| el.get_attribute("id").as_deref() == Some(id))
+    }
+
+    /// `document.title`: the text of the first `<title>` element, with whitespace stripped
+    /// and collapsed.
+    pub fn title(&self) -> String {
+        self.find(&|el| el.local_name() == "title")
+            .and_then(|t| t.text_content())
+            .map(|t| t.split_ascii_whitespace().collect::<Vec<_>>().join(" "))
+            .unwrap_or_default()
+    }
+
+    /// `document.title = value`: sets the text of the first `<title>` element, creating one
+    /// in `<head>` if there is none (and doing nothing if there is no `<head>` either).
+    pub fn set_title(&self, value: &str) {
+        let title = self.find(&|el| el.local_name() == "title").or_else(|| {
+            let head = self.head()?;
+            let title = Dom::create_element("title", None);
+            head.append_child(&title).ok()?;
+            Some(title)
+        });
+        if let Some(title) = title {
+            title.set_text_content(Some(value));
+        }
+    }
+}
+
+/// Creates an HTML element.
+pub fn create_element(tag: &str) -> Element {
+    Dom::create_element(tag, None)
+}
+
+/// Creates an element in the given namespace.
+pub fn create_element_ns(namespace: &str, tag: &str) -> Element {
+    Dom::create_element(tag, Some(namespace))
+}
+
+/// Creates a text node.
+pub fn create_text_node(data: &str) -> Text {
+    Dom::create_text_node(data)
+}
+
+/// Creates a comment node.
+pub fn create_comment(data: &str) -> Comment {
+    Dom::create_comment(data)
+}
+
+/// Creates an empty document fragment.
+pub fn create_document_fragment() -> DocumentFragment {
+    Dom::create_document_fragment()
+}
+
+/// Appends `child` to `parent` (detaching it from its old parent first).
+///
+/// ## Panics
+/// Panics if the insertion is illegal (e.g. the parent is a text node).
+pub fn append_child(parent: &Node, child: &Node) {
+    parent.append_child(child).unwrap();
+}
+
+/// The id of a node.
+pub fn node_id(node: &Node) -> usize {
+    node.node_id()
+}
+
+/// The node with the given id, if it exists in the current arena.
+pub fn node_by_id(id: usize) -> Option<Node> {
+    with(|a| id < a.nodes.len()).then(|| Node::from_id(id as u32))
+}
+
+/// The children of a node, in order.
+pub fn children(node: &Node) -> Vec<Node> {
+    node.child_nodes()
+}
+
+/// The parent of a node.
+pub fn parent(node: &Node) -> Option<Node> {
+    node.parent_node()
+}
+
+/// The attributes of an element in insertion order (empty for other nodes).
+pub fn attributes(node: &Node) -> Vec<(String, String)> {
+    let id = node.ix();
+    with(|a| a.n(id).attrs.clone())
+}
+
+/// The JS properties set on an element via `prop:`/`bind:`, in insertion order.
+pub fn properties(node: &Node) -> Vec<(String, JsValue)> {
+    let id = node.ix();
+    with(|a| a.n(id).props.clone())
+}
+
+/// The event names of the listeners currently stored for a node, in registration order.
+pub fn listeners(node: &Node) -> Vec<String> {
+    let id = node.ix();
+    with(|a| {
+        a.listeners
+            .iter()
+            .filter(|l| l.node == id)
+            .map(|l| l.name.clone())
+            .collect()
+    })
+}
+
+/// A stored event listener, as reported by [`listener_info`].
+#[derive(Debug, Clone, PartialEq, Eq)]
+pub struct ListenerInfo {
+    /// Event name.
+    pub name: String,
+    /// Registered with `add_event_listener_use_capture`.
+    pub capture: bool,
+    /// Registered with `add_event_listener_delegated` (tachys' `delegation` feature).
+    pub delegated: bool,
+}
+
+/// The listeners currently stored for a node, in registration order.
+pub fn listener_info(node: &Node) -> Vec<ListenerInfo> {
+    let id = node.ix();
+    with(|a| {
+        a.listeners
+            .iter()
+            .filter(|l| l.node == id)
+            .map(|l| ListenerInfo {
+                name: l.name.clone(),
+                capture: l.capture,
+                delegated: l.delegated,
+            })
+            .collect()
+    })
+}
+
+/// How many mutations this node has received: every change of its data, attributes,
+/// properties or child list (insertions into it, removals from it) counts once.
+/// Being moved does not count for the moved node, only for the old and new parent.
+pub fn mutation_count(node: &Node) -> u64 {
+    let id = node.ix();
+    with(|a| a.n(id).mutations)
+}
+
+/// The number of nodes created since the last [`reset`] (equals the next node id).
+pub fn nodes_created() -> usize {
+    with(|a| a.nodes.len())
+}
+
+/// DOM exceptions swallowed by [`Dom`] functions since the last call (the browser build only
+/// logs a console warning for these).
+pub fn take_errors() -> Vec<String> {
+    with(|a| std::mem::take(&mut a.errors))
+}
+
+/// Turns the op log on or off (off by default). Turning it on clears it.
+pub fn set_logging(on: bool) {
+    with(|a| a.log = on.then(Vec::new))
+}
+
+/// Returns and clears the op log.
+pub fn take_log() -> Vec<Op> {
+    with(|a| a.log.as_mut().map(std::mem::take).unwrap_or_default())
+}
+
+/// Installs the function used by `innerHTML`/template parsing instead of the built-in
+/// [`parse_html_simple`]; `None` restores the default. The function must append the parsed nodes
+/// to the given node. The setting survives [`reset`].
+pub fn set_html_parser(parser: Option<fn(&Node, &str)>) {
+    HTML_PARSER.with(|p| p.set(parser));
+}
+
+/// Parses `html` with the installed parser and appends the resulting nodes to `parent`.
+pub fn parse_html_into(parent: &Node, html: &str) {
+    match HTML_PARSER.with(Cell::get) {
+        Some(parser) => parser(parent, html),
+        None => parse_html_simple(parent, html),
+    }
+}
+
+/// Fires the stored listeners for `name`, passing `JsValue::UNDEFINED` as the event (handlers
+/// that look at the event will panic, as any `web_sys` call does natively).
+///
+/// Order: capture listeners from the outermost ancestor down to the target, then non-capture
+/// listeners from the target upwards (only on the target unless `bubbles`). Delegated
+/// listeners are treated as ordinary bubbling listeners. Returns the number of handlers run.
+pub fn dispatch_event(target: &Node, name: &str, bubbles: bool) -> usize {
+    let id = target.ix();
+    let callbacks: Vec<Callback> = with(|a| {
+        let mut path = vec![id];
+        while let Some(p) = a.n(*path.last().unwrap()).parent {
+            path.push(p);
+        }
+        let mut cbs = Vec::new();
+        for node in path.iter().rev() {
+            for l in &a.listeners {
+                if l.capture && l.node == *node && l.name == name {
+                    cbs.push(Rc::clone(&l.cb));
+                }
+            }
+        }
+        for node in path.iter() {
+            if *node != id && !bubbles {
+                break;
+            }
+            for l in &a.listeners {
+                if !l.capture && l.node == *node && l.name == name {
+                    cbs.push(Rc::clone(&l.cb));
+                }
+            }
+        }
+        cbs
+    });
+    let n = callbacks.len();
+    for cb in callbacks {
+        (cb.borrow_mut())(wasm_bindgen::JsValue::UNDEFINED);
+    }
+    n
+}
+
+/// Called by the `failed_to_cast_*` helpers of `tachys::hydration` (which panic right after):
+/// records what was expected and what was found in the error log (see [`take_errors`]) and
+/// prints it to stderr.
+pub fn hydration_error(defined_at: &str, expected: &str, found: &Node) {
+    let msg = format!(
+        "hydration error at {defined_at}: expected {expected}, found {} \
+         (in parent {})",
+        serialize_with_ids(found),
+        found
+            .parent_node()
+            .map(|p| serialize_with_ids(&p))
+            .unwrap_or_else(|| "{none}".to_string()),
+    );
+    eprintln!("{msg}");
+    with(|a| a.errors.push(msg));
+}
+
+/// Called instead of filling a `NodeRef` (whose value type is a `web_sys` type).
+pub fn record_node_ref_load(el: &Element) {
+    let id = el.ix();
+    with(|a| a.node_ref_loads.push(id));
+}
+
+/// The elements that were handed to a `NodeRef` (`node_ref=` attribute) since the last
+/// [`reset`], in order. Natively a `NodeRef` itself always stays `None` and `on_load` never
+/// fires; to get hold of the element, implement `tachys::html::node_ref::NodeRefContainer`
+/// for a type of your own (its `load` receives the native element).
+pub fn node_ref_loads() -> Vec<Element> {
+    with(|a| a.node_ref_loads.clone())
+        .into_iter()
+        .map(|id| Element(Node::from_id(id)))
+        .collect()
+}
+
+/// Natively, the `$$on_hydrate` callback of island children is stored as a `$$on_hydrate`
+/// listener: run it with `dispatch_event(el, "$$on_hydrate", false)`.
+pub fn island_on_hydrate(el: &Element, on_hydrate: Box<dyn Fn()>) {
+    let remove = Dom::add_event_listener(
+        el,
+        "$$on_hydrate",
+        Box::new(move |_| on_hydrate()),
+    );
+    std::mem::forget(remove);
+}
+
+/// Options for [`serialize_with`].
+#[derive(Debug, Clone, Default, PartialEq, Eq)]
+pub struct SerializeOptions {
+    /// Annotate every node with its id: `<div#3 …>`, `#4"text"`, `<!--#5 data-->`.
+    pub ids: bool,
+    /// Show JS properties after the attributes as `.name=value`.
+    pub props: bool,
+}
+
+/// Serialises a node and its subtree as canonical HTML-like text, the way `outerHTML` would:
+/// `<tag a="v">children</tag>`, attributes in insertion order, void elements without end tag,
+/// text with `& < >` escaped, attribute values with `& "` escaped, comments as `<!--data-->`,
+/// fragments as the concatenation of their children, `<template>` showing its content.
+/// Adjacent text nodes are not delimited; use [`serialize_with_ids`] to see node boundaries.
+pub fn serialize(node: &Node) -> String {
+    serialize_with(node, &SerializeOptions::default())
+}
+
+/// Like [`serialize`], annotating every node with its id: `<div#3 a="v">`, text nodes as
+/// `#4"text"` (with `"` also escaped), comments as `<!--#5 data-->`.
+pub fn serialize_with_ids(node: &Node) -> String {
+    serialize_with(
+        node,
+        &SerializeOptions {
+            ids: true,
+            props: false,
+        },
+    )
+}
+
+/// Serialises with explicit options.
+pub fn serialize_with(node: &Node, options: &SerializeOptions) -> String {
+    let id = node.ix();
+    with(|a| {
+        let mut out = String::new();
+        write_node(a, id, options, &mut out);
+        out
+    })
+}
+
+/// Serialises the children of a node (like `innerHTML`).
+pub fn serialize_children(node: &Node) -> String {
+    node.child_nodes().iter().map(serialize).collect()
+}
+
+fn escape_into(text: &str, attr: bool, quote: bool, out: &mut String) {
+    for c in text.chars() {
+        match c {
+            '&' => out.push_str("&amp;"),
+            '<' if !attr => out.push_str("&lt;"),
+            '>' if !attr => out.push_str("&gt;"),
+            '"' if attr || quote => out.push_str("&quot;"),
+            c => out.push(c),
+        }
+    }
+}
+
+fn write_node(a: &mut Arena, id: u32, o: &SerializeOptions, out: &mut String) {
+    match a.n(id).kind.clone() {
+        NodeKind::Text => {
+            if o.ids {
+                _ = write!(out, "#{id}\"");
+                escape_into(&a.n(id).data, false, true, out);
+                out.push('"');
+            } else {
+                escape_into(&a.n(id).data, false, false, out);
+            }
+        }
+        NodeKind::Comment => {
+            out.push_str("<!--");
+            if o.ids {
+                _ = write!(out, "#{id} ");
+            }
+            out.push_str(&a.n(id).data);
+            out.push_str("-->");
+        }
+        NodeKind::Fragment => {
+            if o.ids {
+                _ = write!(out, "<#fragment#{id}>");
+            }
+            for c in a.n(id).children.clone() {
+                write_node(a, c, o, out);
+            }
+            if o.ids {
+                out.push_str("</#fragment>");
+            }
+        }
+        NodeKind::Element { tag, namespace } => {
+            out.push('<');
+            out.push_str(&tag);
+            if o.ids {
+                _ = write!(out, "#{id}");
+            }
+            for (k, v) in &a.n(id).attrs {
+                out.push(' ');
+                out.push_str(k);
+                out.push_str("=\"");
+                escape_into(v, true, false, out);
+                out.push('"');
+            }
+            if o.props {
+                for (k, v) in &a.n(id).props {
+                    _ = write!(out, " .{k}={v:?}");
+                }
+            }
+            out.push('>');
+            let target = match a.n(id).content {
+                Some(c) => c,
+                None => id,
+            };
+            let kids = a.n(target).children.clone();
+            let void = namespace.is_none()
+                && VOID_ELEMENTS.contains(&tag.to_ascii_lowercase().as_str());
+            if void && kids.is_empty() {
+                return;
+            }
+            let raw = namespace.is_none()
+                && matches!(
+                    tag.to_ascii_lowercase().as_str(),
+                    "script" | "style"
+                )
+                && !o.ids;
+            for c in kids {
+                if raw && a.n(c).kind == NodeKind::Text {
+                    out.push_str(&a.n(c).data);
+                } else {
+                    write_node(a, c, o, out);
+                }
+            }
+            out.push_str("</");
+            out.push_str(&tag);
+            out.push('>');
+        }
+    }
+}
+
+// ---------------------------------------------------------------------------------------------
+// built-in HTML fragment parser
+// ---------------------------------------------------------------------------------------------
+
+fn decode_entities(text: &str) -> String {
+    if !text.contains('&') {
+        return text.to_string();
+    }
+    let mut out = String::with_capacity(text.len());
+    let mut rest = text;
+    while let Some(pos) = rest.find('&') {
+        out.push_str(&rest[..pos]);
+        rest = &rest[pos..];
+        let end = rest[1..]
+            .find(|c: char| !(c.is_ascii_alphanumeric() || c == '#'))
+            .map(|e| e + 1)
+            .unwrap_or(rest.len());
+        let name = &rest[1..end];
+        let has_semi = rest[end..].starts_with(';');
+        let decoded = match name {
+            "amp" => Some('&'),
+            "lt" => Some('<'),
+            "gt" => Some('>'),
+            "quot" => Some('"'),
+            "apos" => Some('\''),
+            "nbsp" => Some('\u{a0}'),
+            _ => name.strip_prefix('#').and_then(|num| {
+                let code = match num.strip_prefix(['x', 'X']) {
+                    Some(hex) => u32::from_str_radix(hex, 16).ok()?,
+                    None => num.parse::<u32>().ok()?,
+                };
+                char::from_u32(code)
+            }),
+        };
+        match decoded {
+            Some(c) => {
+                out.push(c);
+                rest = &rest[end + usize::from(has_semi)..];
+            }
+            None => {
+                out.push('&');
+                rest = &rest[1..];
+            }
+        }
+    }
+    out.push_str(rest);
+    out
+}
+
+/// A small HTML *fragment* parser, sufficient for the HTML that tachys itself produces
+/// (`to_html`, `to_template`, `InertElement`, `inner_html`) and for well-formed hand-written
+/// markup. It appends the parsed nodes to `parent`.
+///
+/// Supported: elements with double-quoted, single-quoted, unquoted and value-less attributes;
+/// void elements; `/>` on foreign (SVG/MathML) elements; comments (`<!>` and `<!-->` give an
+/// empty comment, as in browsers); doctype (skipped); the character references `&amp; &lt; &gt;
+/// &quot; &apos; &nbsp; &#N; &#xN;`; raw text in `<script>`/`<style>`, escapable raw text in
+/// `<textarea>`/`<title>`; `<svg>`/`<math>` switch the namespace for their subtree
+/// (`foreignObject` switches back); `<template>` children go to its content fragment; tag and
+/// attribute names of HTML elements are lower-cased; an end tag closes the nearest open
+/// element with that name and is ignored if there is none.
+///
+/// NOT modelled (a full parser can be installed with [`set_html_parser`]): implied end tags
+/// and implied elements (`<p>` auto-closing, `<tbody>` insertion, …), foster parenting, the
+/// SVG tag/attribute case fix-up tables, the full named character reference table, and the
+/// dropping of a leading newline in `<pre>`/`<textarea>`.
+pub fn parse_html_simple(parent: &Node, html: &str) {
+    let root = parent.clone();
+    let mut rest = html;
+
+    fn current(root: &Node, stack: &[(Node, String, Option<String>)]) -> Node {
+        stack.last().map(|s| s.0.clone()).unwrap_or(root.clone())
+    }
+    // (target, tag, namespace of the element)
+    let mut open: Vec<(Node, String, Option<String>)> = Vec::new();
+
+    let root_ns = match root.kind() {
+        NodeKind::Element { namespace, tag } => {
+            if tag == "foreignObject" {
+                None
+            } else {
+                namespace
+            }
+        }
+        _ => None,
+    };
+
+    let append_text = |target: &Node, text: &str| {
+        if !text.is_empty() {
+            let t = Dom::create_text_node(text);
+            target.append_child(&t).unwrap();
+        }
+    };
+
+    while !rest.is_empty() {
+        let Some(lt) = rest.find('<') else {
+            append_text(&current(&root, &open), &decode_entities(rest));
+            break;
+        };
+        let after = &rest[lt + 1..];
+        let starts_tag = after
+            .chars()
+            .next()
+            .map(|c| {
+                c.is_ascii_alphabetic() || c == '/' || c == '!' || c == '?'
+            })
+            .unwrap_or(false);
+        if !starts_tag {
+            // a lone '<' is text
+            append_text(
+                &current(&root, &open),
+                &decode_entities(&rest[..lt + 1]),
+            );
+            rest = after;
+            continue;
+        }
+        append_text(&current(&root, &open), &decode_entities(&rest[..lt]));
+        rest = after;
+
+        if let Some(r) = rest.strip_prefix("!--") {
+            // comment
+            let (data, r) = if let Some(r) = r.strip_prefix('>') {
+                ("", r)
+            } else if let Some(r) = r.strip_prefix("->") {
+                ("", r)
+            } else {
+                match r.find("-->") {
+                    Some(end) => (&r[..end], &r[end + 3..]),
+                    None => (r, ""),
+                }
+            };
+            let c = Dom::create_comment(data);
+            current(&root, &open).append_child(&c).unwrap();
+            rest = r;
+            continue;
+        }
+        if rest.starts_with('!') || rest.starts_with('?') {
+            // doctype is dropped; anything else is a bogus comment
+            let end = rest.find('>').unwrap_or(rest.len());
+            let body = &rest[1..end];
+            if !body.to_ascii_lowercase().starts_with("doctype") {
+                let c = Dom::create_comment(body);
+                current(&root, &open).append_child(&c).unwrap();
+            }
+            rest = rest.get(end + 1..).unwrap_or("");
+            continue;
+        }
+        if let Some(r) = rest.strip_prefix('/') {
+            // end tag
+            let end = r.find('>').unwrap_or(r.len());
+            let name = r[..end].trim();
+            if let Some(pos) = open
+                .iter()
+                .rposition(|(_, tag, _)| tag.eq_ignore_ascii_case(name))
+            {
+                open.truncate(pos);
+            }
+            rest = r.get(end + 1..).unwrap_or("");
+            continue;
+        }
+
+        // start tag
+        let name_end = rest
+            .find(|c: char| c.is_ascii_whitespace() || c == '>' || c == '/')
+            .unwrap_or(rest.len());
+        let raw_name = &rest[..name_end];
+        rest = &rest[name_end..];
+        let parent_ns = match open.last() {
+            Some((_, tag, ns)) => {
+                if tag == "foreignObject" {
+                    None
+                } else {
+                    ns.clone()
+                }
+            }
+            None => root_ns.clone(),
+        };
+        let lower = raw_name.to_ascii_lowercase();
+        let ns = match lower.as_str() {
+            "svg" => Some(SVG_NS.to_string()),
+            "math" => Some(MATHML_NS.to_string()),
+            _ => parent_ns,
+        };
+        let tag = if ns.is_none() {
+            lower
+        } else {
+            raw_name.to_string()
+        };
+        let el = Dom::create_element(&tag, ns.as_deref());
+
+        // attributes
+        let mut self_closing = false;
+        loop {
+            rest = rest.trim_start();
+            if rest.is_empty() {
+                break;
+            }
+            if let Some(r) = rest.strip_prefix('>') {
+                rest = r;
+                break;
+            }
+            if let Some(r) = rest.strip_prefix("/>") {
+                self_closing = true;
+                rest = r;
+                break;
+            }
+            if let Some(r) = rest.strip_prefix('/') {
+                rest = r;
+                continue;
+            }
+            let n_end = rest
+                .char_indices()
+                .skip(1)
+                .find(|(_, c)| {
+                    c.is_ascii_whitespace() || matches!(c, '=' | '>' | '/')
+                })
+                .map(|(i, _)| i)
+                .unwrap_or(rest.len());
+            let name = &rest[..n_end];
+            rest = rest[n_end..].trim_start();
+            let value = if let Some(r) = rest.strip_prefix('=') {
+                let r = r.trim_start();
+                if let Some(r) = r.strip_prefix('"') {
+                    let end = r.find('"').unwrap_or(r.len());
+                    rest = r.get(end + 1..).unwrap_or("");
+                    decode_entities(&r[..end])
+                } else if let Some(r) = r.strip_prefix('\'') {
+                    let end = r.find('\'').unwrap_or(r.len());
+                    rest = r.get(end + 1..).unwrap_or("");
+                    decode_entities(&r[..end])
+                } else {
+                    let end = r
+                        .find(|c: char| c.is_ascii_whitespace() || c == '>')
+                        .unwrap_or(r.len());
+                    rest = &r[end..];
+                    decode_entities(&r[..end])
+                }
+            } else {
+                String::new()
+            };
+            // the parser keeps the first of duplicate attributes and accepts any name
+            let id = el.ix();
+            with(|a| {
+                let name = a.attr_name(id, name);
+                let n = a.m(id);
+                if !n.attrs.iter().any(|(k, _)| *k == name) {
+                    n.attrs.push((name, value));
+                }
+            });
+        }
+
+        current(&root, &open).append_child(&el).unwrap();
+
+        let is_void = ns.is_none() && VOID_ELEMENTS.contains(&tag.as_str());
+        if is_void || (self_closing && ns.is_some()) {
+            continue;
+        }
+        if ns.is_none()
+            && matches!(tag.as_str(), "script" | "style" | "textarea" | "title")
+        {
+            // (escapable) raw text: everything up to the matching end tag
+            let lower_rest = rest.to_ascii_lowercase();
+            let close = format!("</{tag}");
+            let end = lower_rest.find(&close).unwrap_or(rest.len());
+            let text = &rest[..end];
+            if matches!(tag.as_str(), "textarea" | "title") {
+                append_text(&el, &decode_entities(text));
+            } else {
+                append_text(&el, text);
+            }
+            rest = &rest[end..];
+            if !rest.is_empty() {
+                let gt = rest.find('>').unwrap_or(rest.len());
+                rest = rest.get(gt + 1..).unwrap_or("");
+            }
+            continue;
+        }
+        let target = if ns.is_none() && tag == "template" {
+            let id = el.ix();
+            Node::from_id(with(|a| a.content_target(id)))
+        } else {
+            (*el).clone()
+        };
+        open.push((target, tag, ns));
+    }
+}
